@@ -4,7 +4,8 @@
 (* <<field, bool>> ("field.v == bool"); the head assigns hv to field hf.  Facts map each     *)
 (* field to "T", "F" or "abs".                                                               *)
 (* Reference semantics (one-sided on purpose, so the oracle never demands more than C09):    *)
-(*   May   - least fixpoint of the (field, value) pairs some firing order could produce:     *)
+(*   May   - least fixpoint of the (field, value) pairs some firing order could produce       *)
+(*           (a `bad` rule, whose actions fail after the assignment, counts as producing it):  *)
 (*           soundness = a goal reported provable must be in May;                            *)
 (*   Height- height of the shortest derivation on DEFINITE, CONSISTENT programs (conjunctive *)
 (*           bodies; every field is given at most one value by facts and heads together):    *)
@@ -15,6 +16,7 @@
 EXTENDS Naturals, FiniteSets, Sequences, TLC, Json
 
 CONSTANTS Fields, MaxRules, Depths, Strategies, MaxSols, BodyKinds, MaxOps,
+          Bads,         \* {FALSE} or {FALSE, TRUE}: a `bad` rule's action list fails after its assignment (beyond the Horn core)
           InitProg      \* the fixed program of a C11 run (cfg: InitProg <- P1 / P2 / P3); unused otherwise
 
 Bools == {"T", "F"}
@@ -22,7 +24,7 @@ Atoms == Fields \X Bools
 Bodies == {[k |-> "one", a |-> x, b |-> x] : x \in Atoms}
           \cup (IF "and" \in BodyKinds THEN {[k |-> "and", a |-> x, b |-> y] : x \in Atoms, y \in Atoms} ELSE {})
           \cup (IF "or" \in BodyKinds THEN {[k |-> "or", a |-> x, b |-> y] : x \in Atoms, y \in Atoms} ELSE {})
-RuleSet == {[body |-> bd, hf |-> f, hv |-> v] : bd \in Bodies, f \in Fields, v \in Bools}
+RuleSet == {[body |-> bd, hf |-> f, hv |-> v, bad |-> x] : bd \in Bodies, f \in Fields, v \in Bools, x \in Bads}
 
 VARIABLES prog, facts, nops, last
 vars == <<prog, facts, nops, last>>
@@ -37,7 +39,7 @@ RECURSIVE MayFix(_, _)
 MayFix(pr, P) == IF StepMay(pr, P) = P THEN P ELSE MayFix(pr, StepMay(pr, P))
 May(pr, fs) == MayFix(pr, {<<f, fs[f]>> : f \in {g \in Fields : fs[g] # "abs"}})
 
-Definite(pr) == \A r \in RulesOf(pr) : r.body.k \in {"one", "and"}
+Definite(pr) == \A r \in RulesOf(pr) : r.body.k \in {"one", "and"} /\ ~r.bad
 Consistent(pr, fs) == \A f \in Fields :
     Cardinality(({fs[f]} \ {"abs"}) \cup {r.hv : r \in {x \in RulesOf(pr) : x.hf = f}}) <= 1
 (* H[n] = atoms derivable with height <= n *)
@@ -50,7 +52,7 @@ MustProve(pr, fs, g, d, strat) == strat = "dfs" /\ Definite(pr) /\ Consistent(pr
 Init == prog = <<>> /\ facts = [f \in Fields |-> "abs"] /\ nops = 0 /\ last = [op |-> "init"]
 
 AddRule(r) == /\ Len(prog) < MaxRules /\ prog' = Append(prog, r) /\ UNCHANGED facts
-              /\ last' = [op |-> "addrule", body |-> r.body, hf |-> r.hf, hv |-> r.hv]
+              /\ last' = [op |-> "addrule", body |-> r.body, hf |-> r.hf, hv |-> r.hv, bad |-> r.bad]
 SetFact(f, v) == /\ facts[f] # v /\ facts' = [facts EXCEPT ![f] = v] /\ UNCHANGED prog
                  /\ last' = [op |-> "setfact", f |-> f, v |-> v]
 (* a query on a fresh engine and a copy of the facts: checked against May / MustProve and "untouched on failure" *)
@@ -69,12 +71,12 @@ Next == /\ nops' = nops + 1
 Spec == Init /\ [][Next]_vars
 
 (* ---- C11 histories: a fixed program (one of three), then fact changes and queries on ONE engine ---- *)
-P1 == << [body |-> [k |-> "one", a |-> <<"A", "T">>, b |-> <<"A", "T">>], hf |-> "B", hv |-> "T"],
-         [body |-> [k |-> "one", a |-> <<"B", "T">>, b |-> <<"B", "T">>], hf |-> "C", hv |-> "T"] >>
-P2 == << [body |-> [k |-> "and", a |-> <<"A", "T">>, b |-> <<"B", "F">>], hf |-> "C", hv |-> "F"],
-         [body |-> [k |-> "one", a |-> <<"A", "F">>, b |-> <<"A", "F">>], hf |-> "B", hv |-> "F"] >>
-P3 == << [body |-> [k |-> "or",  a |-> <<"A", "T">>, b |-> <<"B", "T">>], hf |-> "C", hv |-> "T"],
-         [body |-> [k |-> "one", a |-> <<"C", "T">>, b |-> <<"C", "T">>], hf |-> "A", hv |-> "T"] >>
+P1 == << [body |-> [k |-> "one", a |-> <<"A", "T">>, b |-> <<"A", "T">>], hf |-> "B", hv |-> "T", bad |-> FALSE],
+         [body |-> [k |-> "one", a |-> <<"B", "T">>, b |-> <<"B", "T">>], hf |-> "C", hv |-> "T", bad |-> FALSE] >>
+P2 == << [body |-> [k |-> "and", a |-> <<"A", "T">>, b |-> <<"B", "F">>], hf |-> "C", hv |-> "F", bad |-> FALSE],
+         [body |-> [k |-> "one", a |-> <<"A", "F">>, b |-> <<"A", "F">>], hf |-> "B", hv |-> "F", bad |-> FALSE] >>
+P3 == << [body |-> [k |-> "or",  a |-> <<"A", "T">>, b |-> <<"B", "T">>], hf |-> "C", hv |-> "T", bad |-> FALSE],
+         [body |-> [k |-> "one", a |-> <<"C", "T">>, b |-> <<"C", "T">>], hf |-> "A", hv |-> "T", bad |-> FALSE] >>
 InitC11 == /\ prog = InitProg /\ facts = [f \in Fields |-> "abs"] /\ nops = 0 /\ last = [op |-> "init"]
 NextC11 == /\ nops' = nops + 1
            /\ \/ \E f \in Fields, v \in Bools \cup {"abs"} : SetFact(f, v)
